@@ -584,6 +584,23 @@ def hPadConst : Handler := handler fun args =>
     pure (encIntss (padConstBlocks (← cs.toNats?) blocks (← l.toNat?) (← r.toNat?) (← v.toInt?)))
   | _ => none
 
+/-- `(squeeze_row (cc…) (row…))` / `(expand_row (cs…) (xs…))` ↦ `(chunks blocks)` / grid: squeeze / expand_dims of a leading length-one axis -/
+def hSqueezeRow : Handler := handler fun args =>
+  match args with
+  | [cc, row] => do
+    let cc ← cc.toNats?
+    let row ← row.toInts?
+    let v := squeezeRow (Grid.ofFn [1] cc (fun _ q => row.getD q 0))
+    pure (.list [SExp.ofNats v.cs, encIntss ((List.range v.cs.length).map (fun b => (List.range (v.cs.getD b 0)).map (v.blk b)))])
+  | _ => none
+
+def hExpandRow : Handler := handler fun args =>
+  match args with
+  | [cs, xs] => do
+    let xs ← xs.toInts?
+    pure (encGrid (expandRow (Vec.ofFn (← cs.toNats?) (fun q => xs.getD q 0))))
+  | _ => none
+
 /-- `(list_op op r ((block…)…))` ↦ blocks of `flip` / `tile` along one axis -/
 def hListOp : Handler := handler fun args =>
   match args with
@@ -943,8 +960,20 @@ def hGrid : Handler := handler fun args =>
              SExp.ofNats (gridBlockVals weightedSum offs sizes)])))
   | _ => none
 
+/-- `(tri k (rchunks…) (cchunks…))` ↦ for every block, in product order: `((b…) (sizes…) (0/1 values, row-major))` -/
+def hTri : Handler := handler fun args =>
+  match args with
+  | [k, r, c] => do
+    let k ← k.toInt?
+    let cs := [← r.toNats?, ← c.toNats?]
+    pure (.list ((gridBlocks cs).map (fun (b, offs, sizes) =>
+      .list [SExp.ofNats b, SExp.ofNats sizes,
+             SExp.ofNats (gridBlockVals (fun p => if triSpec k (p.getD 0 0) (p.getD 1 0) then 1 else 0) offs sizes)])))
+  | _ => none
+
 
 def table : List (String × Handler) := [
+  ("tri", hTri),
   ("shuffle", hShuffle), ("diagonal", hDiagonal), ("diagonal_nd", hDiagonalNd), ("diagonal_read", hDiagonalRead), ("diag_k", hDiagK),
   ("meshgrid", hMeshgrid), ("grid", hGrid),
   ("searchsorted", hSearchsorted), ("bincount_w", hBincountW), ("unique_inverse", hUniqueInverse), ("bincount", hBincount), ("histogram", hHistogram), ("unique", hUnique),
@@ -956,7 +985,7 @@ def table : List (String × Handler) := [
   ("expand_tuple", hExpandTuple), ("contract_tuple", hContractTuple), ("lower_dim", hLowerDim),
   ("shuffle_plan", hShufflePlan), ("take_plan", hTakePlan),
   ("reshape_rechunk", hReshapeRechunk), ("reshape_check", hReshapeCheck), ("blocks_flat", hBlocksFlat),
-  ("grid_op", hGridOp), ("stack_op", hStackOp), ("bcast_rows", hBcastRows), ("bcast_len1", hBcastLen1), ("list_op", hListOp), ("grid_cat", hGridCat), ("pad_const", hPadConst),
+  ("grid_op", hGridOp), ("stack_op", hStackOp), ("bcast_rows", hBcastRows), ("bcast_len1", hBcastLen1), ("list_op", hListOp), ("grid_cat", hGridCat), ("pad_const", hPadConst), ("squeeze_row", hSqueezeRow), ("expand_row", hExpandRow),
   ("arange", hArange), ("linspace", hLinspace), ("eye", hEye), ("diag", hDiag),
   ("sf", hSoftFloat), ("arange_f", hArangeF), ("arange_old_lens", hArangeOldLens),
   ("normalize", hNormalize), ("blockdims", hBlockdims), ("intersect1d", hIntersect),
